@@ -32,6 +32,180 @@ def _map_of(b, sym):
     return None
 
 
+def inverse_only_when_unreferenced(ctx, rule='inverse-only-when-unreferenced'):
+    """the inverse entry of a target goes only when no reference from the source to it is left (shared with C29: node deletion
+    finds the nodes to clean through the inverse index)"""
+    r, db = ctx.r, ctx.db
+    n = 0
+    b = db.body(R + 'delete_reference')
+    if b is not None:
+        F = ctx.facts(b)
+        diff_problem = []
+        def derives_from_difference(local, depth=0, seen=None):
+            seen = seen or set()
+            if depth > 8 or local in seen:
+                return False
+            seen.add(local)
+            for d in b.defs().get(local, []):
+                ops = []
+                if d[0] == 'call':
+                    if d[2].callee.endswith('HashSet::difference'):
+                        # "targets before minus targets after": sets of node ids, each built from the .target_node of the list's
+                        # entries - a difference of whole references would also contain the targets that are still referenced
+                        # through another reference type
+                        full = getattr(d[2], 'callee_full', '') or ''
+                        if 'HashSet::<types::node_id::NodeId>' not in full:
+                            diff_problem.append('the before / after sets hold %s, not target node ids' % (re.search(r'HashSet::<([^>]*)>', full).group(1) if re.search(r'HashSet::<([^>]*)>', full) else full))
+                            return True
+                        for a_ in d[2].args:
+                            t_ = F.sym_operand(a_)
+                            cl = None
+                            def find_map(s_):
+                                nonlocal cl
+                                if isinstance(s_, tuple) and s_:
+                                    if s_[0] == 'call' and s_[1].endswith('Iterator::map') and len(s_[2]) == 2 and s_[2][1][0] == 'agg' and s_[2][1][1] == 'closure':
+                                        cl = s_[2][1][2]; return
+                                    for x_ in s_:
+                                        find_map(x_)
+                            find_map(t_)
+                            cb_ = db.body(cl) if cl else None
+                            if cb_ is None:
+                                diff_problem.append('a set of the difference is not built by mapping the reference list'); continue
+                            Fc_ = ctx.facts(cb_)
+                            vals = local_defs_fmt(cb_, Fc_, 0)
+                            if not vals or not all(re.match(r'^Clone::clone\(&\(\*\w*\(?_2\)?\)\.target_node\)$', v_) for v_ in vals):
+                                diff_problem.append('a set of the difference is built from %s, not from the target of each reference' % (vals or ['?'])[0][:80])
+                        return True
+                    ops = d[2].args
+                elif d[0] == 'stmt':
+                    rv = d[3]
+                    ops = [rv[1]] if rv[0] in ('use', 'cast') else ([[ 'cp', rv[2]]] if rv[0] == 'ref' else [])
+                for o in ops:
+                    if o[0] in ('cp', 'mv') and derives_from_difference(o[1][0], depth + 1, seen):
+                        return True
+            return False
+        rem = [c for c in virtual_calls(ctx, b, F, '^' + re.escape(R) + r'(?!delete_reference$)') if SETOP.search(c.callee) and c.callee.endswith('::remove') and c.args and 'referenced_by_map' in fmt_sym(b, c.args[0])]
+        if not rem:
+            r.lost(rule, 'inverse-remove', 'removal from an inverse set not found in delete_reference')
+        for i, c in enumerate(rem):
+            n += 1
+            setsym = c.args[0]
+            # key of the get_mut that produced the set
+            keyroot = None
+            def find_getmut(s_):
+                if isinstance(s_, tuple) and s_:
+                    if s_[0] == 'call' and s_[1].endswith('::get_mut') and len(s_[2]) == 2:
+                        return s_[2][1]
+                    for x in s_:
+                        y = find_getmut(x)
+                        if y is not None:
+                            return y
+                return None
+            key = find_getmut(setsym)
+            ok = None
+            if key is not None:
+                def find_iter_local(s_):
+                    if isinstance(s_, tuple) and s_:
+                        if s_[0] == 'call' and s_[1].endswith('Iterator::next') and s_[2]:
+                            t = s_[2][0]
+                            while t[0] in ('ref', 'deref'):
+                                t = t[1]
+                            if t[0] == 'place':
+                                return t[1]
+                        for x in s_:
+                            y = find_iter_local(x)
+                            if y is not None:
+                                return y
+                    return None
+                il = find_iter_local(key)
+                if il is not None and derives_from_difference(il):
+                    if diff_problem:
+                        r.fail(rule, 'inverse-remove#%d' % i, 'delete_reference takes the source out of inverse sets for the wrong targets: %s (two references of different types to one '
+                               'target: deleting one hides the other from inverse lookups)' % '; '.join(diff_problem[:2]), loc=c.loc)
+                        continue
+                    ok = 'the key iterates over HashSet::difference(targets before, targets after)'
+            if ok is None:
+                for l, e in F.literals_at(c.root_bb):
+                    t = fmt_lit(b, l)
+                    if re.search(r'Iterator::any\(.*\) == False$', t) or re.search(r'(contains|has_reference)\(.*\) == False$', t):
+                        ok = 'guarded by `%s`' % t[:80]
+            if ok:
+                r.ok(rule, 'inverse-remove#%d' % i, 'source_node leaves an inverse set only for targets it no longer references: ' + ok, loc=c.loc)
+            else:
+                r.fail(rule, 'inverse-remove#%d' % i, 'delete_reference removes the source from the inverse set of a target without establishing that no other '
+                       'reference from the source to that target is left (two references of different types to one target: deleting one hides the other '
+                       'from inverse lookups)', loc=c.loc)
+    return n
+
+
+def insert_complete(ctx, rule='insert-complete'):
+    """an inserted reference is left out of the forward list only when an equal reference (same type AND same target) is already
+    there: every condition guarding the push in insert_reference is one of the recognised ones, the duplicate test compares whole
+    references, and Reference equality looks at both fields"""
+    r, db = ctx.r, ctx.db
+    b = db.body(R + 'insert_reference')
+    if b is None:
+        r.lost(rule, 'insert_reference', 'not found'); return 0
+    F = ctx.facts(b)
+    NEWREF = r'Reference::new\(Into::into\(Clone::clone\(&\(\*reference_type\(_\d+\)\)\)\), Clone::clone\(&\(\*target_node\(_\d+\)\)\)\)'
+    n = 0
+
+    def whole_ref_any(x):
+        """Iterator::any(list.iter(), |r| ..) whose closure answers true only for an equal type and an equal target"""
+        if not (x[0] == 'call' and x[1].endswith('Iterator::any') and len(x[2]) == 2 and x[2][1][0] == 'agg' and x[2][1][1] == 'closure'):
+            return False
+        outs = bool_fn_outcomes(ctx, x[2][1][2], True)
+        cb = db.body(x[2][1][2])
+        if not outs or cb is None:
+            return False
+        for conj in outs:
+            t = [fmt_lit(cb, l) for l in conj]
+            if not (any(re.search(r'\.reference_type eq ', y) or re.search(r' eq .*\.reference_type$', y) for y in t) and
+                    any(re.search(r'\.target_node eq ', y) or re.search(r' eq .*\.target_node$', y) for y in t)):
+                return False
+        return True
+
+    pushes = [c for c in b.calls() if c.callee.endswith('Vec::push')]
+    if not pushes:
+        r.lost(rule, 'push', 'no push into a reference list in insert_reference'); return 0
+    for i, c in enumerate(pushes):
+        n += 1
+        bad = []
+        for l, e in F.literals_at(c.bb):
+            t = fmt_lit(b, l)
+            if re.match(r'^source_node\(_\d+\) ne target_node\(_\d+\)$|^PartialEq::(eq|ne)\(&source_node\(_\d+\), &target_node\(_\d+\)\) == (False|True)$', t):
+                continue      # a node may not reference itself: refused for every type alike
+            if l[0] == 'variant' and l[2] in ('Some', 'None') and re.search(r'HashMap::(get_mut|get)\(&\(\*self\(_1\)\)\.references_map, &?\(?\*?source_node', fmt_sym(b, l[1]) if l[1][0] != 'place' else
+                                                                        ' '.join(local_defs_fmt(b, F, l[1][1]))):
+                continue      # whether the source already has a list
+            if l[0] == 'truth' and l[2] is False and l[1][0] == 'call' and l[1][1].endswith('::contains') and re.search(r', &' + NEWREF + r'\)$', fmt_sym(b, l[1])):
+                continue      # no equal reference (type and target) present
+            if l[0] == 'truth' and l[2] is False and whole_ref_any(l[1]):
+                continue
+            bad.append(t)
+        if bad:
+            r.fail(rule, 'push#%d' % i, 'insert_reference leaves the new reference out of the forward list on a condition other than an equal reference (same type and target) '
+                   'being present: [%s] - a second reference of another type to the same target is lost while the inverse index still records it' % '; '.join(x[:140] for x in bad[:2]), loc=c.loc)
+        else:
+            r.ok(rule, 'push#%d' % i, 'the push is skipped only for an equal reference already in the list', loc=c.loc)
+    eqs = db.find_bodies(r'references::Reference as std::cmp::PartialEq>::eq$')
+    n += 1
+    if not eqs:
+        r.lost(rule, 'Reference::eq', 'PartialEq for Reference not found')
+    else:
+        outs = bool_fn_outcomes(ctx, eqs[0].path, True) or []
+        okeq = bool(outs)
+        for conj in outs:
+            t = [fmt_lit(eqs[0], l) for l in conj]
+            if not (any('.reference_type eq ' in y for y in t) and any('.target_node eq ' in y for y in t)):
+                okeq = False
+        if okeq:
+            r.ok(rule, 'Reference::eq', 'two references are equal only when type and target are both equal', loc=eqs[0].loc)
+        else:
+            r.fail(rule, 'Reference::eq', 'Reference equality does not compare both the reference type and the target node', loc=eqs[0].loc)
+    return n
+
+
 def run(ctx):
     r, db = ctx.r, ctx.db
     r.explanation = ('Key discipline of the reference index, a necessary condition of "deleting one reference never removes or hides a '
@@ -100,76 +274,7 @@ def run(ctx):
             r.fail(rule, fn, '%s breaks the key discipline of the reference index: %s' % (fn, '; '.join(probs[:3])), loc=b.loc)
         else:
             r.ok(rule, fn, '%s: forward map only at source_node, inverse sets only gain / lose source_node, no foreign rewrites' % fn, loc=b.loc)
-    # the inverse entry of a target goes only when no reference from the source to it is left
-    rule = 'inverse-only-when-unreferenced'
-    b = db.body(R + 'delete_reference')
-    if b is not None:
-        F = ctx.facts(b)
-        def derives_from_difference(local, depth=0, seen=None):
-            seen = seen or set()
-            if depth > 8 or local in seen:
-                return False
-            seen.add(local)
-            for d in b.defs().get(local, []):
-                ops = []
-                if d[0] == 'call':
-                    if d[2].callee.endswith('HashSet::difference'):
-                        return True
-                    ops = d[2].args
-                elif d[0] == 'stmt':
-                    rv = d[3]
-                    ops = [rv[1]] if rv[0] in ('use', 'cast') else ([[ 'cp', rv[2]]] if rv[0] == 'ref' else [])
-                for o in ops:
-                    if o[0] in ('cp', 'mv') and derives_from_difference(o[1][0], depth + 1, seen):
-                        return True
-            return False
-        rem = [c for c in virtual_calls(ctx, b, F, '^' + re.escape(R) + r'(?!delete_reference$)') if SETOP.search(c.callee) and c.callee.endswith('::remove') and c.args and 'referenced_by_map' in fmt_sym(b, c.args[0])]
-        if not rem:
-            r.lost(rule, 'inverse-remove', 'removal from an inverse set not found in delete_reference')
-        for i, c in enumerate(rem):
-            n += 1
-            setsym = c.args[0]
-            # key of the get_mut that produced the set
-            keyroot = None
-            def find_getmut(s_):
-                if isinstance(s_, tuple) and s_:
-                    if s_[0] == 'call' and s_[1].endswith('::get_mut') and len(s_[2]) == 2:
-                        return s_[2][1]
-                    for x in s_:
-                        y = find_getmut(x)
-                        if y is not None:
-                            return y
-                return None
-            key = find_getmut(setsym)
-            ok = None
-            if key is not None:
-                def find_iter_local(s_):
-                    if isinstance(s_, tuple) and s_:
-                        if s_[0] == 'call' and s_[1].endswith('Iterator::next') and s_[2]:
-                            t = s_[2][0]
-                            while t[0] in ('ref', 'deref'):
-                                t = t[1]
-                            if t[0] == 'place':
-                                return t[1]
-                        for x in s_:
-                            y = find_iter_local(x)
-                            if y is not None:
-                                return y
-                    return None
-                il = find_iter_local(key)
-                if il is not None and derives_from_difference(il):
-                    ok = 'the key iterates over HashSet::difference(targets before, targets after)'
-            if ok is None:
-                for l, e in F.literals_at(c.root_bb):
-                    t = fmt_lit(b, l)
-                    if re.search(r'Iterator::any\(.*\) == False$', t) or re.search(r'(contains|has_reference)\(.*\) == False$', t):
-                        ok = 'guarded by `%s`' % t[:80]
-            if ok:
-                r.ok(rule, 'inverse-remove#%d' % i, 'source_node leaves an inverse set only for targets it no longer references: ' + ok, loc=c.loc)
-            else:
-                r.fail(rule, 'inverse-remove#%d' % i, 'delete_reference removes the source from the inverse set of a target without establishing that no other '
-                       'reference from the source to that target is left (two references of different types to one target: deleting one hides the other '
-                       'from inverse lookups)', loc=c.loc)
+    n += inverse_only_when_unreferenced(ctx)
     # the removal predicate of delete_reference
     rule = 'delete-predicate'
     cls = db.find_bodies(r'^' + re.escape(R) + r'delete_reference(::\{closure#\d+\})+$')
@@ -192,6 +297,7 @@ def run(ctx):
             else:
                 r.fail(rule, 'retain-closure@bb%d' % bi, 'delete_reference drops list entries without comparing %s: other references of the node are deleted too'
                        % ' and '.join(x for x, ok in (('the reference type', ty), ('the target node', tg)) if not ok), loc=b.loc)
+    n += insert_complete(ctx)
     r.count('index_mutations', n)
     r.floor('insert-keys', 'index_mutations', n, 12)
     # node deletion keeps the two maps in step as well (rule shared with C29)
